@@ -198,7 +198,8 @@ class CallMixin:
     # ------------------------------------------------------------------ segment end / havoc
     # ------------------------------------------------------------------ frame rule (private writes preserve the class invariants)
     FRAME_CONT = ("d_has", "d_get", "d_len", "l_len", "l_item", "s_has", "s_len")
-    FRAME_OK = set(FRAME_CONT) | {"alloc", "g:owner", "fld:__class__", "w_dict", "mycalls"}
+    FRAME_XS = ("g:xs_len", "g:xs_item")        # exit stacks: private = not (yet) the stack of any context (ghost g:xs_owner is None)
+    FRAME_OK = set(FRAME_CONT) | set(FRAME_XS) | {"alloc", "g:owner", "g:xs_owner", "fld:__class__", "w_dict", "mycalls"}
 
     def frame_premise(self, old, new, comps_changed):
         """the writes since `old` touched containers only at private addresses: allocated since `old`, or owned by nobody in `old`;
@@ -217,6 +218,17 @@ class CallMixin:
                         z3.ForAll([x], z3.Or(z3.Select(new.g("g:owner"), x) == z3.Select(old.g("g:owner"), x),
                                              z3.And(x >= old.alloc, z3.Select(new.g("g:owner"), x) == nobody)),
                                   patterns=[z3.Select(new.g("g:owner"), x)])))
+        if "g:xs_owner" in self.comps:
+            privx = z3.And(x >= 0, z3.Or(x >= old.alloc, z3.Select(old.g("g:xs_owner"), x) == VNone))
+            for c in self.FRAME_XS:
+                if comps_changed is None or c in comps_changed:
+                    out.append((f"only-private-exit-stacks-written:{c}",
+                                z3.ForAll([x], z3.Or(z3.Select(new.h(c), x) == z3.Select(old.h(c), x), privx), patterns=[z3.Select(new.h(c), x)])))
+            if comps_changed is None or "g:xs_owner" in comps_changed:
+                out.append(("exit-stack-ownership-changes-only-by-new-unowned-stacks",
+                            z3.ForAll([x], z3.Or(z3.Select(new.g("g:xs_owner"), x) == z3.Select(old.g("g:xs_owner"), x),
+                                                 z3.And(x >= old.alloc, z3.Select(new.g("g:xs_owner"), x) == VNone)),
+                                      patterns=[z3.Select(new.g("g:xs_owner"), x)])))
         if comps_changed is None or "fld:__class__" in comps_changed:
             out.append(("class-of-existing-objects-unchanged",
                         z3.ForAll([x], z3.Implies(z3.And(0 <= x, x < old.alloc), z3.Select(new.h("fld:__class__"), x) == z3.Select(old.h("fld:__class__"), x)),
@@ -231,7 +243,7 @@ class CallMixin:
         import time as _t
         H = self.fresh_heap("FA")
         H2 = dict(H)
-        for c in self.FRAME_CONT + ("alloc", "g:owner", "fld:__class__"):
+        for c in self.FRAME_CONT + ("alloc", "g:owner", "fld:__class__") + (self.FRAME_XS + ("g:xs_owner",) if "g:xs_owner" in self.comps else ()):
             H2[c] = fresh("FB." + c, self.comps[c])
         A, Bv = HeapView(H), HeapView(H2)
         hyps = [f for _, f in self.frame_premise(A, Bv, None)] + [e[1](A) for e in self.reg.invariants]
@@ -793,6 +805,15 @@ class CallMixin:
         return self._call_spec_checked(st, spec, qual, args, anchor)
 
     def _call_spec_checked(self, st, spec, qual, args, anchor):
+        out = self._call_spec_checked0(st, spec, qual, args, anchor)
+        if self.spec is not None and hasattr(self.spec, "after_spec_call"):
+            for r in out:
+                r.st.ghost = dict(r.st.ghost)
+                self.spec.after_spec_call(self, r.st, qual, args, r.val, r.exc, anchor)
+            out = [r for r in out if self.feasible(r.st)]
+        return out
+
+    def _call_spec_checked0(self, st, spec, qual, args, anchor):
         from .specs import Frame
         F0 = Frame(self, st, st, args)
         pw = spec.pure_when(F0)
